@@ -394,12 +394,17 @@ CMR_ERROR balancedTestGraph(
   assert(cmr);
   assert(matrix);
   assert(pisBalanced);
-  assert(psubmatrix);
   assert(params);
-  assert(stats);
   assert(timeLimit > 0);
 
-  assert(!"Not implemented");
+  CMR_UNUSED(matrix);
+  CMR_UNUSED(pisBalanced);
+  CMR_UNUSED(psubmatrix);
+  CMR_UNUSED(params);
+  CMR_UNUSED(stats);
+  CMR_UNUSED(timeLimit);
+
+  CMRraiseErrorMessage(cmr, "The graph-based algorithm for testing balancedness is not implemented.");
 
   return CMR_ERROR_INVALID;
 }
@@ -582,10 +587,7 @@ CMR_ERROR balancedTestConnected(
     error = balancedTestChooseAlgorithm(cmr, reducedMatrix, pisBalanced, psubmatrix ? &submatrixOfReduced : NULL, params,
       stats, timeLimit - time);
 
-    if (error != CMR_ERROR_TIMEOUT)
-      CMR_CALL(error);
-
-    if (error != CMR_ERROR_TIMEOUT)
+    if (error == CMR_OKAY)
     {
       CMRdbgMsg(4, "Matrix %s balanced.\n", (*pisBalanced) ? "IS" : "is NOT" );
 
@@ -672,6 +674,7 @@ CMR_ERROR CMRbalancedTest(CMR* cmr, CMR_CHRMAT* matrix, bool* pisBalanced, CMR_S
   CMR_CALL( CMRsort(cmr, numComponents, orderedComponents, sizeof(CMR_BLOCK*), &compareBlockComponents) );
 
   *pisBalanced = true;
+  CMR_ERROR error = CMR_OKAY;
   for (size_t comp = 0; comp < numComponents; ++comp)
   {
     CMR_BLOCK* component = orderedComponents[comp];
@@ -681,12 +684,13 @@ CMR_ERROR CMRbalancedTest(CMR* cmr, CMR_CHRMAT* matrix, bool* pisBalanced, CMR_S
     CMRdbgMsg(2, "Processing block %zu.\n", comp);
 
     double time = ((clock() - startClock) * 1.0 / CLOCKS_PER_SEC);
-    if (*pisBalanced && time < timeLimit)
+    if (*pisBalanced && time < timeLimit && error == CMR_OKAY)
     {
-      CMR_CALL( balancedTestConnected(cmr, matrix, pisBalanced, psubmatrix, params, stats, timeLimit - time) );
+      /* In case of an error (including a timeout) we still free the remaining blocks below. */
+      error = balancedTestConnected(cmr, matrix, pisBalanced, psubmatrix, params, stats, timeLimit - time);
 
       /* If the component was not balanced, then we modify its violating submatrix to be one of the input matrix. */
-      if (!*pisBalanced && psubmatrix)
+      if (error == CMR_OKAY && !*pisBalanced && psubmatrix)
       {
         CMR_SUBMAT* submatrix = *psubmatrix;
         assert(submatrix);
@@ -705,6 +709,9 @@ CMR_ERROR CMRbalancedTest(CMR* cmr, CMR_CHRMAT* matrix, bool* pisBalanced, CMR_S
 
   CMR_CALL( CMRfreeStackArray(cmr, &orderedComponents) );
   CMR_CALL( CMRfreeBlockArray(cmr, &components) );
+
+  if (error)
+    return error;
 
   double time = ((clock() - startClock) * 1.0 / CLOCKS_PER_SEC);
   if (stats)
